@@ -205,12 +205,32 @@ struct Interp : World<Spline, TM, SM>
         return ws[w].get();
     }
 
-    env::SimExecutor make_exec(int mode, uint64_t seed, int workers)
+    // mode 6 = the seed-th permutation of the N segment indices in lexicographic order (enumeration of all schedules
+    // of the serial-on-one-thread kind for small N)
+    env::SimExecutor make_exec(int mode, uint64_t seed, int workers, int N = 0)
     {
         env::SimExecutor ex;
-        ex.mode = ((mode % 6) + 6) % 6;
+        ex.mode = ((mode % 7) + 7) % 7;
         ex.seed = seed;
         ex.workers = 2 + (((workers % 3) + 3) % 3);
+        if (ex.mode == 6)
+        {
+            if (N < 1 || N > 8) { ex.mode = 2; return ex; }
+            uint64_t fact = 1;
+            for (int q = 2; q <= N; ++q) fact *= (uint64_t)q;
+            uint64_t k = seed % fact;
+            std::vector<int> pool(N);
+            for (int q = 0; q < N; ++q) pool[q] = q;
+            for (int q = N; q >= 1; --q)
+            {
+                fact /= (uint64_t)q;
+                uint64_t idx = k / fact;
+                k %= fact;
+                ex.explicit_order.push_back(pool[(size_t)idx]);
+                pool.erase(pool.begin() + (long)idx);
+            }
+            ctx.count("probe.enumerated_permutation");
+        }
         return ex;
     }
 
@@ -251,7 +271,7 @@ struct Interp : World<Spline, TM, SM>
         cc.prog = &prog;
         cc.nseg = m.prob.N();
         cc.trace = (checks & CHK_TRACE) ? &tr : nullptr;
-        env::SimExecutor ex = make_exec(ex_mode, ex_seed, workers);
+        env::SimExecutor ex = make_exec(ex_mode, ex_seed, workers, m.prob.N());
         if (ex.mode != 0) ctx.mark_nontrivial();
         EvalResult got;
         if (ex.mode == 0 && (ex_seed & 1))
